@@ -329,6 +329,44 @@ func (f *SimFile) Read(p []byte) (int, error) {
 func (f *SimFile) Close() error { return nil }
 func (f *SimFile) Name() string { return f.path }
 
+// Stat / Lstat: enough of os.FileInfo for existence and kind checks. A file
+// that exists but cannot be read (EACCES, EIO) stats fine, as on a real system.
+type simInfo struct {
+	name string
+	size int64
+	dir  bool
+}
+
+func (i simInfo) Name() string { return i.name }
+func (i simInfo) Size() int64  { return i.size }
+func (i simInfo) Mode() fs.FileMode {
+	if i.dir {
+		return fs.ModeDir | 0o755
+	}
+	return 0o644
+}
+func (i simInfo) ModTime() time.Time { return time.Unix(0, 0).UTC() }
+func (i simInfo) IsDir() bool        { return i.dir }
+func (i simInfo) Sys() any           { return nil }
+
+func Stat(path string) (fs.FileInfo, error) {
+	record("FILE", "stat:"+path, 0)
+	f, ok := cfg.Files[path]
+	if !ok || f.Err == "ENOENT" {
+		return nil, fileErr("stat", path, "ENOENT")
+	}
+	base := path
+	for i := len(path) - 1; i >= 0; i-- {
+		if path[i] == '/' {
+			base = path[i+1:]
+			break
+		}
+	}
+	return simInfo{name: base, size: int64(len(f.Data)), dir: f.Err == "EISDIR"}, nil
+}
+
+func Lstat(path string) (fs.FileInfo, error) { return Stat(path) }
+
 // ---------------------------------------------------------------- clock
 
 func Now() time.Time {
